@@ -723,52 +723,93 @@ KEYWORDS = [("false_positive", "FalsePositiveRatio"), ("fp_ratio", "FalsePositiv
             ("window", "WindowCacheSize"), ("protected", "ProtectedCacheSize"), ("probationary", "ProbationaryCacheSize"), ("samples", "Samples"), ("size", "Size")]
 
 
+def float_sources(F, f):
+    """the f64 inputs of a constructor: parameters of type f64, and f64 / Option<f64> fields of the builder it consumes"""
+    out = []
+    for i, tt in enumerate(f.get("inputs") or []):
+        if tt.get("k") == "prim" and tt.get("n") == "f64":
+            out.append(("param", i + 1, "parameter %d" % (i + 1)))
+        head = tt.get("n") if tt.get("k") == "adt" else (tt.get("t", {}) or {}).get("n") if tt.get("k") == "ref" else None
+        adt = F.adts.get(head) if head else None
+        if adt and i == 0:
+            for v in adt.get("variants", []):
+                for fld in v["fields"]:
+                    if fld["ty"] in ("f64", "core::option::Option<f64>"):
+                        out.append(("field", fld["n"], "field `%s`" % fld["n"]))
+    return out
+
+
+def mentions(x, src):
+    for t_ in subterms(x):
+        if src[0] == "param" and t_[0] == "param" and t_[1] == src[1]:
+            return True
+        if src[0] == "field":
+            if t_[0] == "proj" and isinstance(t_[1], tuple) and t_[1][0] == "param" and t_[1][1] == 1 and src[1] in t_[2]:
+                return True
+            if t_[0] == "load" and t_[1][0] == "H" and isinstance(t_[1][1], tuple) and t_[1][1][0] == "param" and t_[1][1][1] == 1 and src[1] in t_[1][2]:
+                return True
+    return False
+
+
 def validation(cx, chk, cfg, F):
-    ctors = [("lfu::tinylfu::TinyLFUBuilder::finalize", "fp"), ("lfu::wtinylfu::WTinyLFUCacheBuilder::finalize", "fp")]
-    for q, _ in ctors:
-        f = F.find(q)
-        ok_paths = 0
-        bad = None
-        for p in cx.paths(cfg, f["path"], policy=OpaqueHelpers(), tag="inv"):
-            rv = p.ret
-            if not (isinstance(rv, tuple) and rv[0] == "agg" and rv[2][1] == "Ok"):
-                continue
-            ok_paths += 1
-            # the ratio may be validated in a helper: facts of every depth count, but only comparisons of the builder's own ratio value
-            facts = [(c, t) for c, t, e in cond_facts(p)]
-            cands = []
-            for c, t in facts:
-                if isinstance(c, tuple) and c[0] == "bin" and c[1] in ("Lt", "Le", "Gt", "Ge") and any("f64" in str(x) for x in (c[2], c[3]) if isinstance(x, tuple) and x[0] == "const"):
-                    x = c[2] if not (isinstance(c[2], tuple) and c[2][0] == "const") else c[3]
-                    if x not in cands and any(t_[0] == "param" and t_[1] == 1 for t_ in subterms(x)):
-                        cands.append(x)    # a value read out of the builder (self)
-            if not cands:
-                bad = "a successful path does not compare the false-positive ratio with its bounds"
-                continue
-            verdicts = []
-            for fp in cands:
-                lower = upper = False
-                for c, t in facts:
-                    if not (isinstance(c, tuple) and c[0] == "bin" and c[1] in ("Lt", "Le", "Gt", "Ge") and fp in (c[2], c[3])):
-                        continue
-                    if not t:
-                        continue    # a comparison that evaluated false proves nothing about NaN
-                    op = c[1] if c[2] == fp else {"Lt": "Gt", "Gt": "Lt", "Le": "Ge", "Ge": "Le"}[c[1]]
-                    if op in ("Gt", "Ge"):
-                        lower = True
-                    if op in ("Lt", "Le"):
-                        upper = True
-                verdicts.append((lower, upper))
-            if not any(lo and up for lo, up in verdicts):
-                lower = any(lo for lo, up in verdicts)
-                bad = "the false-positive ratio is accepted on a path where no ordered comparison with its %s bound evaluated true: NaN (which fails every comparison) passes the validation" % (
-                    "lower" if not lower else "upper")
-        if bad:
-            chk.violation("C05.R2", "%s|fp-nan" % q, "%s: %s" % (q, bad), f["span"]["file"], f["span"]["lo"], f["q"], None, cfg)
-        elif ok_paths:
-            chk.ob("C05.R2", "%s:%s|fp" % (cfg, q), "fp ratio accepted only under fp > lo && fp < hi evaluated true (NaN-rejecting) on %d Ok paths" % ok_paths)
-        else:
+    """every f64 a fallible constructor takes (directly or out of its builder) is accepted only on paths where ordered comparisons with a
+    lower and an upper bound evaluated TRUE (a comparison that came out false says nothing about NaN)"""
+    n_src = 0
+    for f in F.doc["fns"]:
+        if f.get("kind") != "AssocFn" or "core::result::Result" not in str(f.get("output")) or F.body(f["path"]) is None:
+            continue
+        if not (f.get("exported") or f["q"].endswith("Builder::finalize")):
+            continue
+        out = f.get("output") or {}
+        okty = (out.get("a") or [{}])[0]
+        if not (out.get("n") == "core::result::Result" and okty.get("k") == "adt" and okty.get("n") in F.adts):
+            continue      # constructor-like: Result<crate type, _>
+        srcs = float_sources(F, f)
+        if not srcs:
+            continue
+        q = f["q"]
+        paths = [p for p in cx.paths(cfg, f["path"], policy=OpaqueHelpers(), tag="inv") if isinstance(p.ret, tuple) and p.ret[0] == "agg" and p.ret[2][1] == "Ok"]
+        if not paths:
             raise AnalysisError("no Ok path in %s" % q)
+        for src in srcs:
+            n_src += 1
+            bad = None
+            for p in paths:
+                # the ratio may be validated in a helper: facts of every depth count
+                facts = [(c, t) for c, t, e in cond_facts(p)]
+                cands = []
+                for c, t in facts:
+                    if isinstance(c, tuple) and c[0] == "bin" and c[1] in ("Lt", "Le", "Gt", "Ge") and any("f64" in str(x) for x in (c[2], c[3]) if isinstance(x, tuple) and x[0] == "const"):
+                        x = c[2] if not (isinstance(c[2], tuple) and c[2][0] == "const") else c[3]
+                        if x not in cands and mentions(x, src):
+                            cands.append(x)
+                if not cands:
+                    bad = "a successful path does not compare %s (an f64) with its bounds" % src[2]
+                    continue
+                verdicts = []
+                for fp in cands:
+                    lower = upper = False
+                    for c, t in facts:
+                        if not (isinstance(c, tuple) and c[0] == "bin" and c[1] in ("Lt", "Le", "Gt", "Ge") and fp in (c[2], c[3])):
+                            continue
+                        if not t:
+                            continue    # a comparison that evaluated false proves nothing about NaN
+                        op = c[1] if c[2] == fp else {"Lt": "Gt", "Gt": "Lt", "Le": "Ge", "Ge": "Le"}[c[1]]
+                        if op in ("Gt", "Ge"):
+                            lower = True
+                        if op in ("Lt", "Le"):
+                            upper = True
+                    verdicts.append((lower, upper))
+                if not any(lo and up for lo, up in verdicts):
+                    lower = any(lo for lo, up in verdicts)
+                    bad = "%s is accepted on a path where no ordered comparison with its %s bound evaluated true: NaN (which fails every comparison) passes the validation" % (
+                        src[2], "lower" if not lower else "upper")
+            key = "fp-nan" if "false_positive" in str(src[1]) else "nan|%s" % (src[1],)
+            if bad:
+                chk.violation("C05.R2", "%s|%s" % (q, key), "%s: %s" % (q, bad), f["span"]["file"], f["span"]["lo"], f["q"], None, cfg)
+            else:
+                chk.ob("C05.R2", "%s:%s|%s" % (cfg, q, key), "%s accepted only under lower and upper bound comparisons that evaluated true (NaN-rejecting) on %d Ok paths" % (src[2], len(paths)))
+    chk.floor("C05.R2", "f64 inputs of fallible constructors in %s" % cfg, n_src, 8)
     # error paths: variant matches the tested scalar and carries it
     errs = {}
     for f in F.doc["fns"]:
